@@ -107,7 +107,7 @@ def _replay_worker(args):
 def run_harnesses(report, specs, classify=None, procs=None):
     """specs: list of dicts {module, fn, name?, cond_timeout, path_timeout, setup?}.
     Adds one Ob per harness to the report (and checks its reachability twin)."""
-    procs = procs or min(16, os.cpu_count() or 4)
+    procs = procs or int(os.environ.get('VERIF_PROCS') or min(16, os.cpu_count() or 4))
     jobs = []
     for s in specs:
         for twin in (False, True):
